@@ -264,6 +264,28 @@ def run(ctx):
                             f"want={short(verdict[1], 160)}")
         if on_disk == data and got_file != got_str:
             raise Violation("C11/file-and-string-disagree", site, short(text, 200))
+        if not giant and not huge and f.draw(4) == 0:
+            # history on one reader object: read, let the caller take the returned lists apart, read again
+            import copy
+            for kw, label in (({"file_path": path}, "file"), ({"pddl_str": text}, "string")):
+                wanted = verdict[1] if label == "file" else want
+                try:
+                    tok = L().PDDLTokenizer(**kw)
+                    first = tok.parse()
+                    if isinstance(first, list):
+                        del first[: 1 + len(first) // 2]
+                        for x in first:
+                            if isinstance(x, list):
+                                x.append("edited-by-the-caller")
+                    second = tok.parse()
+                except Exception as e:
+                    raise Violation("C11/second-read-differs", f"PDDLTokenizer({label}).parse twice",
+                                    f"{type(e).__name__}: {e}")
+                if second != wanted:
+                    raise Violation("C11/second-read-differs", f"PDDLTokenizer({label}).parse twice",
+                                    f"after the caller edited the first result the second read gives "
+                                    f"{short(second, 160)}, want {short(wanted, 160)}")
+            ctx.probes["read_twice_checked"] += 1
     elif verdict[0] == "reject":
         if got_file[0] != "reject":
             raise Violation("C11/unbalanced-text-accepted", site,
